@@ -263,4 +263,198 @@ theorem pop_refines {q : Q} (h : QInv q) :
       · constructor <;> simp only [hs] <;> (try assumption) <;> (try omega)
       · exact key q.hni (q.hqi + 1) (by omega)
 
+/-- **PopRight** refines remove-last. -/
+theorem popRight_refines {q : Q} (h : QInv q) :
+    ∃ q', popRight q = .ok (q', (abs q).getLast?.join) ∧ QInv q' ∧ abs q' = (abs q).dropLast := by
+  unfold popRight
+  by_cases he : isEmpty q = true
+  · refine ⟨q, ?_, h, ?_⟩ <;> simp [he, (h.empty_abs he).1]
+  · obtain ⟨p, pe, pz⟩ := h.nonempty he
+    obtain ⟨p1, p2, p3⟩ := h.pos
+    simp only [he, if_false, Bool.false_eq_true]
+    -- the cell to remove: (n, i) with global position pt - 1
+    have main : ∀ (n i : Nat) (a : Arr) (q1 : Q), q1.queues = q.queues → q1.tqi = i →
+        q1.hni = q.hni → q1.hqi = q.hqi → q1.tni = n →
+        q.queues[n]? = some (some a) → i < a.length → off q.queues n + i + 1 = off q.queues q.tni + q.tqi →
+        QInv { q1 with queues := q.queues.set n (some (a.set i none)) } →
+        ∃ q', (do
+            let x ← readRef q1 (.node n) i
+            let q2 ← writeRef q1 (.node n) i none
+            pure (q2, x) : Res (Q × Elem)) = .ok (q', (abs q).getLast?.join) ∧ QInv q' ∧ abs q' = (abs q).dropLast := by
+      intro n i a q1 e1 e3 e4 e5 e6 ha hi hpos hinv
+      have ha1 : q1.queues[n]? = some (some a) := by rw [e1]; exact ha
+      refine ⟨{ q1 with queues := q.queues.set n (some (a.set i none)) }, ?_, hinv, ?_⟩
+      · rw [readRef_node ha1 hi, writeRef_node none ha1 hi]
+        simp only [Res.ok_bind, Res.pure_eq, e1]
+        have : (abs q).getLast?.join = a[i] := by
+          unfold abs absL
+          rw [G_last _ _ _ p (by omega)]
+          have : off q.queues q.tni + q.tqi - 1 = off q.queues n + i := by omega
+          rw [this, F_get_cell _ _ _ _ ha hi]; rfl
+        rw [this]
+      · show absL (q.queues.set n (some (a.set i none))) q1.hni q1.hqi q1.tni q1.tqi = _
+        rw [e3, e4, e5, e6, absL_set _ _ _ _ _ ha hi, G_takeset _ _ _ _ _ (Nat.le_refl _)]
+        unfold abs absL
+        have : off q.queues n + i = off q.queues q.tni + q.tqi - 1 := by omega
+        rw [this]
+        exact G_dropLast _ _ _ (by omega) (by omega)
+    obtain ⟨h1, h2, h3, h4, h5, h6, h7, h8, h9, h10, h11, h12, h13, h14, h15, h16, h17⟩ := h
+    by_cases c : q.tqi = 0
+    · have hlt := pz c
+      have c0 : ¬ q.tni = 0 := by omega
+      obtain ⟨n, a1, a2, a3, a4⟩ := h4 (q.tni - 1) (by omega)
+      obtain ⟨a, ha, hal⟩ := shape_some a1
+      obtain ⟨hl, hle⟩ := getElem_of_getElem? ha
+      have s2 := off_succ q.queues (q.tni - 1) hl
+      rw [hle] at s2
+      simp only [nodeOf, hal] at s2
+      have e : q.tni - 1 + 1 = q.tni := by omega
+      rw [e] at s2
+      have hn0 : ¬ n = 0 := by omega
+      simp only [c, if_true, c0, if_false, size, a2, mkRef, ha, hn0, Res.ok_bind]
+      have hs := shape_set_cell q.queues (q.tni - 1) (n - 1) a none ha
+      refine main (q.tni - 1) (n - 1) a { q with tni := q.tni - 1, tqi := n - 1, tailQueue := .node (q.tni - 1), tqs := n } rfl rfl rfl rfl rfl ha (by omega) (by omega) ?_
+      constructor <;> simp only [hs] <;> (try assumption) <;> (try omega)
+      case ord =>
+        intro e'
+        have : n = q.hqs := by rw [e', a2] at h10; simpa using h10
+        omega
+    · simp only [c, if_false, Res.ok_bind, h9]
+      obtain ⟨n, a1, a2, a3, a4⟩ := h4 q.tni h7
+      obtain ⟨a, ha, hal⟩ := shape_some a1
+      have : n = q.tqs := by rw [h11] at a2; simpa using a2.symm
+      have hs := shape_set_cell q.queues q.tni (q.tqi - 1) a none ha
+      refine main q.tni (q.tqi - 1) a { q with tqi := q.tqi - 1, tailQueue := .node q.tni } rfl rfl rfl rfl rfl ha (by omega) (by omega) ?_
+      constructor <;> simp only [hs] <;> (try assumption) <;> (try omega)
+
+/-- **PushLeft** when the head cursor is at cell 0 of node 0: reports "full", state unchanged. -/
+theorem pushLeft_full (q : Q) (x : Elem) (hf : q.hni = 0 ∧ q.hqi = 0) : pushLeft q x = .ok (q, false) := by
+  have : q.hni ≤ 0 ∧ q.hqi ≤ 0 := by omega
+  simp [pushLeft, this]
+
+/-- **PushLeft** refines cons whenever the head cursor is not at cell 0 of node 0. -/
+theorem pushLeft_refines {q : Q} (h : QInv q) (x : Elem) (hnf : ¬ (q.hni = 0 ∧ q.hqi = 0)) :
+    ∃ q', pushLeft q x = .ok (q', true) ∧ QInv q' ∧ abs q' = x :: abs q := by
+  have hnf' : ¬ (q.hni ≤ 0 ∧ q.hqi ≤ 0) := by omega
+  obtain ⟨p1, p2, p3⟩ := h.pos
+  unfold pushLeft
+  simp only [hnf', if_false]
+  have main : ∀ (n i : Nat) (a : Arr) (q1 : Q), q1.queues = q.queues → q1.hqi = i →
+        q1.hni = n → q1.tni = q.tni → q1.tqi = q.tqi →
+        q.queues[n]? = some (some a) → i < a.length → off q.queues n + i + 1 = off q.queues q.hni + q.hqi →
+        QInv { q1 with queues := q.queues.set n (some (a.set i x)) } →
+        ∃ q', (do
+            let q2 ← writeRef q1 (.node n) i x
+            pure (q2, true) : Res (Q × Bool)) = .ok (q', true) ∧ QInv q' ∧ abs q' = x :: abs q := by
+    intro n i a q1 e1 e3 e4 e5 e6 ha hi hpos hinv
+    have ha1 : q1.queues[n]? = some (some a) := by rw [e1]; exact ha
+    refine ⟨{ q1 with queues := q.queues.set n (some (a.set i x)) }, ?_, hinv, ?_⟩
+    · rw [writeRef_node x ha1 hi]
+      simp only [Res.ok_bind, Res.pure_eq, e1]
+    · show absL (q.queues.set n (some (a.set i x))) q1.hni q1.hqi q1.tni q1.tqi = _
+      rw [e3, e4, e5, e6, absL_set _ _ _ _ _ ha hi]
+      unfold abs absL
+      have : off q.queues n + i = off q.queues q.hni + q.hqi - 1 := by omega
+      rw [this]
+      exact G_cons _ _ _ _ (by omega) p1 (by omega)
+  obtain ⟨h1, h2, h3, h4, h5, h6, h7, h8, h9, h10, h11, h12, h13, h14, h15, h16, h17⟩ := h
+  by_cases c : q.hqi = 0
+  · have c0 : 1 ≤ q.hni := by omega
+    obtain ⟨n, a1, a2, a3, a4⟩ := h4 (q.hni - 1) (by omega)
+    obtain ⟨a, ha, hal⟩ := shape_some a1
+    obtain ⟨hl, hle⟩ := getElem_of_getElem? ha
+    have s2 := off_succ q.queues (q.hni - 1) hl
+    rw [hle] at s2
+    simp only [nodeOf, hal] at s2
+    have e : q.hni - 1 + 1 = q.hni := by omega
+    rw [e] at s2
+    have hn0 : ¬ n = 0 := by omega
+    simp only [c, if_true, size, a2, mkRef, ha, hn0, if_false, Res.ok_bind]
+    have hs := shape_set_cell q.queues (q.hni - 1) (n - 1) a x ha
+    refine main (q.hni - 1) (n - 1) a { q with hni := q.hni - 1, hqi := n - 1, headQueue := .node (q.hni - 1), hqs := n } rfl rfl rfl rfl rfl ha (by omega) (by omega) ?_
+    constructor <;> simp only [hs] <;> (try assumption) <;> (try omega)
+  · simp only [c, if_false, Res.ok_bind, h8]
+    obtain ⟨n, a1, a2, a3, a4⟩ := h4 q.hni (by omega)
+    obtain ⟨a, ha, hal⟩ := shape_some a1
+    have : n = q.hqs := by rw [h10] at a2; simpa using a2.symm
+    have hs := shape_set_cell q.queues q.hni (q.hqi - 1) a x ha
+    refine main q.hni (q.hqi - 1) a { q with hqi := q.hqi - 1, headQueue := .node q.hni } rfl rfl rfl rfl rfl ha (by omega) (by omega) ?_
+    constructor <;> simp only [hs] <;> (try assumption) <;> (try omega)
+
+/-- **Tail** returns the last element of the abstract deque. -/
+theorem tail_refines {q : Q} (h : QInv q) : tail q = .ok (abs q).getLast?.join := by
+  unfold tail
+  by_cases he : isEmpty q = true
+  · simp [he, (h.empty_abs he).1]
+  · obtain ⟨p, pe, pz⟩ := h.nonempty he
+    obtain ⟨p1, p2, p3⟩ := h.pos
+    simp only [he, if_false, Bool.false_eq_true]
+    have last : ∀ (n i : Nat) (a : Arr), q.queues[n]? = some (some a) → (hi : i < a.length) →
+        off q.queues n + i + 1 = off q.queues q.tni + q.tqi → (abs q).getLast?.join = a[i] := by
+      intro n i a ha hi hpos
+      unfold abs absL
+      rw [G_last _ _ _ p (by omega)]
+      have : off q.queues q.tni + q.tqi - 1 = off q.queues n + i := by omega
+      rw [this, F_get_cell _ _ _ _ ha hi]; rfl
+    obtain ⟨h1, h2, h3, h4, h5, h6, h7, h8, h9, h10, h11, h12, h13, h14, h15, h16, h17⟩ := h
+    by_cases c : q.tqi = 0
+    · have hlt := pz c
+      have c0 : ¬ q.tni = 0 := by omega
+      obtain ⟨n, a1, a2, a3, a4⟩ := h4 (q.tni - 1) (by omega)
+      obtain ⟨a, ha, hal⟩ := shape_some a1
+      obtain ⟨hl, hle⟩ := getElem_of_getElem? ha
+      have s2 := off_succ q.queues (q.tni - 1) hl
+      rw [hle] at s2
+      simp only [nodeOf, hal] at s2
+      have e : q.tni - 1 + 1 = q.tni := by omega
+      rw [e] at s2
+      have hn0 : ¬ n = 0 := by omega
+      have hi : n - 1 < a.length := by omega
+      simp only [c, if_true, c0, if_false, slot, ha, size, a2, hn0, Res.ok_bind, List.getElem?_eq_getElem hi]
+      rw [last (q.tni - 1) (n - 1) a ha hi (by omega)]
+    · obtain ⟨n, a1, a2, a3, a4⟩ := h4 q.tni h7
+      obtain ⟨a, ha, hal⟩ := shape_some a1
+      have : n = q.tqs := by rw [h11] at a2; simpa using a2.symm
+      have hi : q.tqi - 1 < a.length := by omega
+      simp only [c, if_false, h9, readRef_node ha hi]
+      rw [last q.tni (q.tqi - 1) a ha hi (by omega)]
+
+theorem sumSizes_spec {q : Q} (h : QInv q) (n i : Nat) (hb : i + n ≤ q.nodeIndex + 1) :
+    sumSizes q i n = .ok (off q.queues (i + n) - off q.queues i) := by
+  induction n generalizing i with
+  | zero => simp [sumSizes]
+  | succ n ih =>
+    obtain ⟨a, ha, hsz, _, _⟩ := h.node i (by omega)
+    obtain ⟨hl, hle⟩ := getElem_of_getElem? ha
+    have s2 := off_succ q.queues i hl
+    rw [hle] at s2
+    simp only [nodeOf] at s2
+    have hm : off q.queues (i + 1) ≤ off q.queues (i + 1 + n) := off_mono _ (by omega)
+    have e : i + (n + 1) = i + 1 + n := by omega
+    simp only [sumSizes, size, hsz, Res.ok_bind, ih (i + 1) (by omega), Res.pure_eq, e]
+    congr 1; omega
+
+/-- **Len** reports the length of the abstract deque (holes count, as in the Go code). -/
+theorem len_refines {q : Q} (h : QInv q) : len q = .ok ((abs q).length : Int) := by
+  obtain ⟨p1, p2, p3⟩ := h.pos
+  have hl : (abs q).length = off q.queues q.tni + q.tqi - (off q.queues q.hni + q.hqi) := by
+    unfold abs absL; exact G_len _ _ _ (by omega)
+  unfold len
+  by_cases c : q.tni ≤ q.hni
+  · have e : q.hni = q.tni := by have := h.hle; omega
+    have := h.ord e
+    have e2 : off q.queues q.hni = off q.queues q.tni := by rw [e]
+    simp only [c, if_true, hl]
+    congr 1; omega
+  · obtain ⟨ah, hah, hahl⟩ := h.headNode
+    obtain ⟨hhl, hhe⟩ := getElem_of_getElem? hah
+    have s2 := off_succ q.queues q.hni hhl
+    rw [hhe] at s2
+    simp only [nodeOf, hahl] at s2
+    have hm : off q.queues (q.hni + 1) ≤ off q.queues q.tni := off_mono _ (by omega)
+    have e : q.hni + 1 + (q.tni - (q.hni + 1)) = q.tni := by omega
+    have hlt := h.hlt
+    simp only [c, if_false, size, h.hqs, Res.ok_bind, sumSizes_spec h (q.tni - (q.hni + 1)) (q.hni + 1) (by have := h.tle; omega), e, Res.pure_eq, hl]
+    congr 1; omega
+
 end Slock.Queue
